@@ -759,8 +759,8 @@ def stop_profile(seed):
         ws = [{"name": "w1", "np": rng.choice([1, 2]), "G": rng.choice([0.1, 0.2]), "W": 0.0, "stop_children": rng.random() < 0.5},
               {"name": "w2", "np": 1, "G": 0.1, "W": 0.0}]
         s = [{"op": "boot"}, {"op": "advance", "dt": 1.0}]
-        for _ in range(rng.randint(1, 2)):
-            s.append({"op": "fork", "sel": ["w1", rng.randint(0, 1)], "obeys": rng.random() < 0.5, "deep": True})
+        for _ in range(rng.randint(2, 3)):        # (the first fork makes a child, the next ones children of that child)
+            s.append({"op": "fork", "sel": ["w1", 0], "obeys": rng.random() < 0.5, "deep": True})
         s.append({"op": "req", "cmd": rng.choice(["stop", "restart", "rm", "stop"]), "props": {"name": "w1", "waiting": rng.random() < 0.6}})
         s.append({"op": "advance", "dt": 1.5})
         s.append({"op": "end", "xprobe": True, "passes": 2})
@@ -787,7 +787,7 @@ def stop_profile(seed):
         ws.append({"name": "w3", "np": rng.choice([0, 1]), "G": 0.1, "W": 0.0})
     s = [{"op": "boot"}, {"op": "tick", "n": rng.randint(3, 8)}]
     for rnd in range(rng.randint(1, 2)):
-        how = rng.choice(["die", "extkill", "decr", "set0", "none"])
+        how = rng.choice(["die", "extkill", "decr", "set0", "decr", "set0", "none"])
         if how == "die":
             s.append({"op": "die", "sel": ["w1", 0], "status": rng.choice(scenario.EXIT_STATUSES)})
         elif how == "extkill":
